@@ -62,6 +62,7 @@ def interpolate_faces_to_vertices(
     """
     weight = weight.lower()
     check_argument("weight", weight, str, {'uniform', 'area', 'angle', 'sum'})
+    vattr.clear()
 
     if weight in ("uniform", 'sum'):
         for v in mesh.id_vertices:
@@ -145,7 +146,8 @@ def average_corners_to_vertices(
     """
     weight = weight.lower()
     check_argument("weight", weight, str, {'uniform', 'angle', 'sum'})
-    
+    vattr.clear()
+
     if weight == "uniform":
         count = np.zeros(len(mesh.vertices))
         for c,v in enumerate(mesh.face_corners):
@@ -222,6 +224,7 @@ def average_corners_to_faces(
     """
     weight = weight.lower()
     check_argument("weight", weight, str, ['uniform', 'angle', 'sum'])
+    fattr.clear()
 
     if weight == "uniform":
         for F in mesh.id_faces:
